@@ -393,9 +393,18 @@ def run(ctx):
     nasis = 0
     for root in ('<%s as std::str::FromStr>::from_str' % NA, NA + '::from_four_words'):
         pb = prog.inl(root, keep=r'NetworkAddress::(new|from_four_words|encode_four_words)$')
+        # address-typed locals that are modified in place after their definition (`addr.set_port(..)`, `*addr.ip_mut() = ..`,
+        # a field store): a value that passes through one of them is not "the parse result itself"
+        touched = set()
+        for bi_, si_, s_ in pb.stmts():
+            r_ = s_['r']
+            if r_['k'] == 'ref' and r_.get('m') == 'mut' and re.search(r'SocketAddr|IpAddr|Ipv4Addr|Ipv6Addr', pb.local_ty(r_['p'][0])):
+                touched.add(r_['p'][0])
+            if len(s_['d']) > 1 and re.search(r'SocketAddr|IpAddr|Ipv4Addr|Ipv6Addr', pb.local_ty(s_['d'][0])) and '*' not in s_['d'][1:]:
+                touched.add(s_['d'][0])
         for i, c in enumerate(c_ for c_ in pb.calls() if c_.callee == NA + '::new'):
             e = pb.expr(c.args[0])
-            okp = _parsed(e)
+            okp = _parsed(e) and not (L.expr_locals(e) | ({c.args[0]['p'][0]} if 'p' in c.args[0] else set())) & touched
             nasis += 1
             ctx.ob('ROUND-TRIP', 'parsed-as-is@%s#%d' % (root.rsplit('::', 1)[-1], i), okp, c.where(),
                    'NetworkAddress::new is given the parse result itself (%s)' % _peel(e).brief(60) if okp else
